@@ -699,6 +699,12 @@ def hEdsReconcile (inp out : Json) : Except String Findings := do
                    | some c => c.status != "True" || now ≥ c.lastTransition + 2 * minute - 5 * sec
                    | none => true)
       | none => true))
+  -- C07 "the failed replica set ... is deleted only once it reports no pods": whatever its age
+  let fs := spec fs "C07.failed-deleted-only-drained" (o.deletedErs.all (fun nm =>
+      match own.find? (fun e => e.name == nm) with
+      | some e => !isCondTrue e.status.conds "Canary-Failed" ||
+                  e.status.desired + e.status.current + e.status.ready + e.status.available == 0
+      | none => true))
   -- C07 (theorem C07_spec_write_even_if_status_current): whatever the status already says, while the
   -- up-to-date replica set is a failed canary and spec.template is not the active one's, a reconcile
   -- that reaches the status computation restores the template
@@ -747,6 +753,11 @@ def hEdsReconcile (inp out : Json) : Except String Findings := do
         | _, _ => fs
       fs
     | _, _ => fs
+  -- C14 "after each reconcile the status equals the documented function": when the documented function (the
+  -- model, theorem C14_eds_status_fn) says the stored status is out of date, the reconcile writes it — a
+  -- change detection that overlooks a field leaves a stale status behind
+  let stale : Bool := (inp.getObjValAs? Bool "staleRead").toOption.getD false
+  let fs := spec fs "C14.status-refreshed" (stale || o.kind != "ok" || m.statusUpdate.isNone || o.statusUpdate.isSome)
   -- C16: defaulting update is recognised (no loop)
   let fs := match o.defaulted with
     | some s' => spec fs "C16.no-default-loop" (isDefaulted s' o.defaultedTemplateName)
@@ -760,7 +771,7 @@ def hEdsReconcile (inp out : Json) : Except String Findings := do
   -- silently be resolved against something else than the targeted nodes (C15), the list must not grow (C04)
   let readFault : Bool := (inp.getObjValAs? Bool "readFault").toOption.getD false
   let safety := ["SPEC C15.count-vs-targeted", "SPEC C15.keep(reconcile)", "SPEC C04.list-growth", "SPEC C12.writes-owned", "SPEC C12.no-adoption",
-    "SPEC C13.create-only-if-none", "SPEC C13.cleanup-safe", "SPEC C05.status-active", "SPEC C16.reconcile-no-crash(EDS)",
+    "SPEC C13.create-only-if-none", "SPEC C13.cleanup-safe", "SPEC C07.failed-deleted-only-drained", "SPEC C07.retention", "SPEC C05.status-active", "SPEC C16.reconcile-no-crash(EDS)",
     "SPEC C07.status-before-spec"]
   let fs := if readFault then fs.filter (fun t => safety.any (fun p => t.startsWith p)) else fs
   return fs
@@ -862,6 +873,11 @@ def hErsReconcile (inp out : Json) : Except String Findings := do
   let fs := spec fs "C01.api-create-only-eligible-empty" (o.creates.all (fun c =>
       nodes.any (fun n => n.name == c.node && fit rs.template n) &&
       ownPods.all (fun p => p.nodeOf != some c.node || p.phase == "Unknown" || p.phase == "Failed")))
+  -- the same clause with the node each generated pod was BUILT FOR (recorded by the harness), not the node the
+  -- code under test reads back from it: a pod the builder pinned wrongly must not make its node look empty
+  let fs := spec fs "C01.api-no-second-pod-for-node" (o.creates.all (fun c =>
+      ownPods.all (fun p => SMap.get? p.annotations "verif/built-for" != some c.node ||
+        p.phase == "Unknown" || p.phase == "Failed")))
   let fs := spec fs "C01.api-unknown-untouched" (ownPods.all (fun p => p.phase != "Unknown" || !o.deleted.contains p.name))
   -- C01 in the store (scenario steps): no node gains a second live daemon pod during this sync
   let dupB : List String := (inp.getObjValAs? (List String) "doubledBefore").toOption.getD []
@@ -997,9 +1013,16 @@ def hErsReconcile (inp out : Json) : Except String Findings := do
   -- clauses are judged on what it wrote — what it creates must still be built from the valid setting
   -- selecting the node (C18/C10), on eligible empty nodes (C01), inside its role's nodes (C04), own (C12)
   let readFault : Bool := (inp.getObjValAs? Bool "readFault").toOption.getD false
-  let safety := ["SPEC C18.only-valid-setting-applied", "SPEC C10.api-pinned-meta", "SPEC C10.api-resources", "SPEC C01.api-", "SPEC C04.canary-creates-in-list",
+  -- the parent ExtendedDaemonSet could not be read in this sync: role, pause / freeze switches, strategy are
+  -- unknown — a sync that nevertheless creates or deletes pods decided from something it remembered
+  -- (C11 "no decision state outside the API objects"; C08: the switches it obeys are the current ones)
+  let parentUnreadable : Bool := (inp.getObjValAs? Bool "parentUnreadable").toOption.getD false
+  let quiet := o.creates.isEmpty && o.deleted.isEmpty && o.labelAdds.isEmpty && o.labelRemoves.isEmpty
+  let fs := spec fs "C11.no-pod-write-without-parent" (!parentUnreadable || quiet)
+  let fs := spec fs "C08.sync-obeys-current-switches(parent unreadable)" (!parentUnreadable || quiet)
+  let safety := ["SPEC C11.no-pod-write-without-parent", "SPEC C08.sync-obeys-current-switches", "SPEC C18.only-valid-setting-applied", "SPEC C10.api-pinned-meta", "SPEC C10.api-resources", "SPEC C01.api-", "SPEC C04.canary-creates-in-list",
     "SPEC C04.active-avoids-list", "SPEC C04.unknown-inert", "SPEC C04.label-only-own-ers", "SPEC C12.writes-owned",
-    "SPEC C16.reconcile-no-crash(ERS)", "SPEC C10.sync-no-spurious-replace", "SPEC C08.sync-paused-no-update-delete",
+    "SPEC C16.reconcile-no-crash(ERS)", "SPEC C10.sync-no-spurious-replace", "SPEC C03.holds(sync level", "SPEC C08.sync-paused-no-update-delete",
     "SPEC C08.sync-frozen-no-create", "SPEC C11.status-last", "SPEC C07.failed-mark-kept"]
   let fs := if readFault then fs.filter (fun t => safety.any (fun p => t.startsWith p)) else fs
   return fs
